@@ -47,7 +47,7 @@ pub fn run(ctx: &Ctx) -> Option<Report> {
             }
             let st = std::mem::replace(&mut r.stats, crate::core::Stats::new());
             r.stats = st.merge(s2);
-            r.rule.push_str(" — The whole exploration is carried out twice: (A) with no logger output and providers that answer at once; (B) with a logger at Trace level (every record's arguments are evaluated; Debug-and-above records and every 16th Trace record are formatted) and, where the harness's standard judge is used, a strict provider (panics when called without readiness) that is not ready at once and answers late, each option that cannot matter for the request at hand (S3 mode, form folding) switched the other way, nine unsigned bystander headers with a meaning elsewhere added where absent, and two thirds of the origin-form request targets rewritten in absolute form (authority = the Host value, or a foreign one) and presented as HTTP/2 or HTTP/3. Counts are the sums of both passes; distinct states / inputs are counted once.");
+            r.rule.push_str(" — The whole exploration is carried out twice: (A) with no logger output and providers that answer at once; (B) with a logger at Trace level (every record's arguments are evaluated; Debug-and-above records and every 16th Trace record are formatted) and, where the harness's standard judge is used, a strict provider (panics when called without readiness) that is not ready at once and answers late, each option that cannot matter for the request at hand (S3 mode, form folding) switched the other way, unsigned bystander headers added where absent (ten fixed ones, six rotating out of thirty standard request headers, Connection / Trailer / Vary naming the request's other headers), every header value flagged sensitive for a third of the requests, and two thirds of the origin-form request targets rewritten in absolute form (authority = the Host value, or a foreign one) and presented as HTTP/2 or HTTP/3. Counts are the sums of both passes; distinct states / inputs are counted once.");
             r.extra["ambient_passes"] = serde_json::json!(2);
             if quick_b {
                 r.rule.push_str(" For this check pass (B) is carried out at the quick tier's bounds.");
